@@ -297,5 +297,5 @@ Definition handle_group (contracts : list (string * list (list nat))) (group : l
   | Ok funcs =>
       jobj (map (fun '(name, checks) =>
                    let '(dtype, vt) := match Parse.assoc name detector_table with Some x => x | None => ("", None) end in
-                   (name, jlist (map jstr (group_verdict funcs checks dtype vt group)))) group_checks)
+                   (name, jlist (map jstr (group_verdict funcs checks dtype vt (map yaml_txn group))))) group_checks)
   end.
